@@ -267,6 +267,16 @@ func (v *walVocab) closedObs(ifi *ssa.If, truth bool) string {
 // value tags the results of a transaction body with their role.
 func (v *walVocab) value(cx *Ctx, val ssa.Value, f *Fact) (AV, bool) {
 	c, ok := val.(*ssa.Call)
+	if ok && c.Call.IsInvoke() && eventName(c) == "types.MetaStore.Load" {
+		// what the meta store returns is, by definition, named by durable metadata
+		a := cx.Eval(val, f)
+		t := AV{K: avTuple, Tup: make([]AV, 2)}
+		if a.K == avTuple {
+			copy(t.Tup, a.Tup)
+		}
+		t.Tup[0].Tag = "~persisted"
+		return t, true
+	}
 	if !ok || c.Call.IsInvoke() || c.Call.StaticCallee() != nil || !v.isTxnSig(c.Call.Signature()) {
 		return AV{}, false
 	}
